@@ -45,6 +45,9 @@ static struct cat_command *cmds;
 static struct wcmd wc[MAXCMD];
 static int ncmd;
 static struct cat_variable (*vars)[MAXVAR];
+/* what the library is handed: per command an array of exactly var_num descriptors in its own heap block, so that a read of
+ * var[var_num] (or through a stale pointer of an earlier case) is visible to the sanitizer */
+static struct cat_variable *exactv[MAXCMD];
 static struct cat_command_group *groups;
 static struct cat_command_group **gptr;
 static char *gname[MAXGRP];
@@ -353,6 +356,8 @@ static int m_lock(void)
                 saw_lock++;
         }
         emit("L %ld %d %d %d\n", stepno, lockn, f, locked);
+        if (!f && locked > 0)
+                return 35;      /* not recursive: a second lock by the holder is refused (EDEADLK), as an error-checking mutex does */
         if (!f)
                 locked++;
         return f ? ((lockn & 1) ? 7 : -4) : 0;
@@ -607,6 +612,13 @@ static int find_var(const struct cat_variable *v, int *ci, int *vi)
 {
         long off = (long)((const char *)v - (const char *)&vars[0][0]);
         long idx;
+        int i;
+        for (i = 0; i < ncmd; i++)
+                if (exactv[i] != NULL && v >= exactv[i] && v < exactv[i] + wc[i].nvar) {
+                        *ci = i;
+                        *vi = (int)(v - exactv[i]);
+                        return 1;
+                }
         if (off < 0 || (size_t)off >= sizeof(struct cat_variable) * MAXCMD * MAXVAR || off % (long)sizeof(struct cat_variable))
                 return 0;
         idx = off / (long)sizeof(struct cat_variable);
@@ -673,6 +685,8 @@ void w_reset(void)
                         free(wc[i].var[k].shadow);
                         free((void *)vars[i][k].name);
                 }
+                free(exactv[i]);
+                exactv[i] = NULL;
                 for (f = 0; f < 2; f++)
                         for (k = 0; k < 4; k++) {
                                 int j;
@@ -1021,6 +1035,15 @@ void w_run(long budget, long stall_n)
                         return;
                 }
         }
+        for (i = 0; i < ncmd; i++) {
+                free(exactv[i]);
+                exactv[i] = NULL;
+                if (wc[i].nvar > 0) {
+                        exactv[i] = malloc((size_t)wc[i].nvar * sizeof(struct cat_variable));
+                        memcpy(exactv[i], vars[i], (size_t)wc[i].nvar * sizeof(struct cat_variable));
+                        cmds[i].var = exactv[i];
+                }
+        }
         memset(&desc, 0, sizeof desc);
         desc.cmd_group = gptr;
         desc.cmd_group_num = (size_t)ngrp;
@@ -1065,8 +1088,8 @@ void w_run(long budget, long stall_n)
                 if (flags & WF_SAMPLE) {
                         const struct cat_command *pc = cat_get_processed_command(at, CAT_FSM_TYPE_UNSOLICITED);
                         int pi = pc ? (int)(pc - cmds) : -1;
-                        int b = mtx_on ? -9 : (int)cat_is_busy(at);
-                        int h = mtx_on ? -9 : (int)cat_is_hold(at);
+                        int b = (mtx_on && !(flags & WF_SAMPLE_LOCKED)) ? -9 : (int)cat_is_busy(at);
+                        int h = (mtx_on && !(flags & WF_SAMPLE_LOCKED)) ? -9 : (int)cat_is_hold(at);
                         if (pi != lp || b != lb || h != lh) {
                                 emit("P %ld %d %d %d\n", stepno, pi, b, h);
                                 lp = pi; lb = b; lh = h;
